@@ -348,6 +348,30 @@ func (engine) Generate(rng *rand.Rand, tier string) []core.Case {
 				*g = *snap
 			}
 			ops = append(ops, "dump")
+			if rng.Intn(14) == 0 {
+				// concurrent walletdb.Batch callers on one bucket, pairwise different keys, some failing
+				if l := g.sortedBuckets(); len(l) > 0 {
+					b := l[rng.Intn(len(l))]
+					nc := 2 + rng.Intn(4)
+					var cs []string
+					for i := 0; i < nc; i++ {
+						o := []string{"ok", "ok", "ok", "err", "panic"}[rng.Intn(5)]
+						k := fmt.Sprintf("cb%02x", i)
+						if rng.Intn(12) == 0 {
+							k = g.pick([]string{"-", "78*32769"}) // Put fails: the closure hands back Put's error
+						}
+						cs = append(cs, fmt.Sprintf("%s:%s:%s", k, g.someVal(), o))
+						if o == "ok" && len(k) == 4 {
+							if g.keys[b] == nil {
+								g.keys[b] = map[string]bool{}
+							}
+							g.keys[b][k] = true
+						}
+					}
+					ops = append(ops, fmt.Sprintf("cbatch %s %s", b, strings.Join(cs, ",")), "dump")
+					tags["concurrent-batch"] = true
+				}
+			}
 			switch rng.Intn(12) {
 			case 0, 1:
 				ops = append(ops, "reopen", "dump")
